@@ -24,13 +24,6 @@ META = {
     "design_ref": "DESIGN.md §3 C34",
 }
 
-# keys of the genuine defects of the unchanged tree (see known_findings.d/C34.json)
-ENUMERATED = {
-    "c34-I2:imap-entry-D",
-    "c34-I1:two-persistent-instances-one-key",
-    "c34-I2:imap-entry-X",
-    "c34-I3:get-returned-D",
-}
 KNOWN_CORPUS = os.path.join(os.path.dirname(os.path.dirname(os.path.dirname(os.path.abspath(__file__)))), "known_findings.d", "C34.json")
 
 
@@ -60,7 +53,7 @@ def jobs_for(ctx, deep=False):
     for i in range(0, len(fixed), step):
         jobs.append(("fixed", fixed[i : i + step]))
     nchunks = 40 if thorough else 10
-    per = 800 if thorough else 250
+    per = 800 if thorough else 380
     profiles = ["identity", "identity", "uniform", "detach", "nested"]
     for c in range(nchunks):
         lo, hi = (6, 26) if thorough else (5, 16)
@@ -71,7 +64,7 @@ def jobs_for(ctx, deep=False):
 def evaluate(ctx, cases, label):
     from harness import lib_uow_check as K
 
-    K.evaluate(ctx, cases, label, "c34", ENUMERATED, never_catchall=())
+    K.evaluate(ctx, cases, label, "c34")
 
 
 def run(ctx, deep=False):
